@@ -248,6 +248,9 @@ def implicit_output(inputs):
 
 
 def expected_value(spec, arrays, oracle, np):
+    if spec["api"] in ("einsum", "einsum_expr") and "..." in spec["eq"]:
+        # ellipsis broadcasting: numpy.einsum on int64 is the (exact) reference
+        return np.asarray(np.einsum(spec["eq"], *[np.asarray(a) for a in arrays])).astype(object)
     if spec["api"] in ("einsum", "einsum_expr"):
         inputs, output = eq_to_terms(spec["eq"])
     elif spec["api"] == "ncon":
@@ -367,6 +370,20 @@ def pools():
         ("ba,ac->bc", ((2, 3), (3, 4))), ("ab,bc->abc", ((2, 3), (3, 4))), ("ab,cb->ac", ((2, 3), (4, 3))),
         ("ab,bc->", ((2, 3), (3, 4))), ("ab,ab->ab", ((2, 3), (2, 3))), ("ab,ba->ab", ((2, 2), (2, 2))),
         ("ab,ab->ba", ((2, 2), (2, 2)))]],
+        ["einsum", "einsum_expr"])
+    # lru_cached parsers: parse_equation_ellipses(eq, shapes), _parse_eq_to_batch_matmul(eq, shape_a, shape_b),
+    # _parse_einsum_single(eq, shape): same equation, different ranks / shapes
+    P["ellipsis-rank"] = ([dict(eq="...a,a...->...", shapes=s) for s in
+                           [((2, 3), (3, 2)), ((3,), (3, 2)), ((2, 3), (3,)), ((2, 2, 3), (3, 2)), ((3,), (3,)),
+                            ((4, 3), (3, 4))]] +
+                          [dict(eq="...a,...a", shapes=s) for s in [((2, 3), (2, 3)), ((3,), (2, 3)), ((2, 3), (3,))]],
+                          ["einsum", "einsum_expr"])
+    bk = {"implementation": "cotengra", "prefer_einsum": True}
+    P["bmm-shapes"] = ([dict(eq=e, shapes=s, kwargs=bk) for e, s in [
+        ("ab,bc->ac", ((2, 3), (3, 4))), ("ab,bc->ac", ((2, 3), (3, 2))), ("ab,bc->ac", ((1, 3), (3, 4))),
+        ("ab,bc->ac", ((2, 1), (1, 4))), ("ab,bc->ca", ((2, 3), (3, 4))), ("ab,ab->ab", ((2, 3), (2, 3))),
+        ("ab,ab->a", ((2, 3), (2, 3))), ("ab,ab->a", ((3, 2), (3, 2))), ("aab,bc->ac", ((2, 2, 3), (3, 4))),
+        ("aab,bc->ac", ((3, 3, 2), (2, 4)))]],
         ["einsum", "einsum_expr"])
     P["constants"] = ([dict(eq="ab,bc,cd->ad", shapes=B3["shapes"], constants=[1]),
                        dict(eq="ab,bc,cd->ad", shapes=B3["shapes"], constants=[1], alt_constant=True),
